@@ -350,7 +350,7 @@ def gen_literal(rng, comp):
     if comp == "protocol":
         pool = ["http", "https", "ws", "wss", "ftp", "file", "HTTP", "Https", "foo", "web+x", "a.b-c", "A1", "1a", "+a", "-a", ".a",
                 " http", "http ", "ht\ttp", "h\nttp", "http\\:x", "a b", "é", "a/b", "a@b", "a%41", "x" * 20, "data", "blob", "javascript",
-                "\x01a", "a\x01", "a?b", "a#b", "ht_tp"]
+                "\x01a", "a\x01", "a?b", "a#b", "ht_tp", "http:", "https:", "ws:", "foo:", "file:", "a:"]
         if r < 0.55:
             return rng.choice(pool).replace("\\:", ":")
         return _rand_text(rng, list("abzAZ09+-. _:/\t") + ["é"], 1, 5)
